@@ -1,0 +1,12 @@
+//go:build !verif
+
+package verifhook
+
+// Enabled tells whether instrumentation points are compiled in.
+const Enabled = false
+
+// Point marks a named step boundary.
+func Point(string) {}
+
+// Fault returns an error to be injected at a named call site, nil if none.
+func Fault(string) error { return nil }
